@@ -98,14 +98,33 @@ def chain(f, op, limit=16):
     return out, step_id(o)
 
 
-def derives_from(f, op, ref_op):
-    """The value `op` is `ref_op` itself or a view of it obtained through a chain of first-argument calls:
-    the chain of `ref_op` is a suffix of the chain of `op`, with identical field projections at the joint."""
+VIEW = re.compile(r"Deref>?::deref$|AsRef(<.*>)?>?::as_ref$|Borrow(<.*>)?>?::borrow$|::as_path$|::as_slice$|"
+                  r"::as_os_str$|Path::new$")
+
+
+def seq(f, op):
     a, fa = chain(f, op)
-    b, fb = chain(f, ref_op)
-    sa = [s for _, s in a] + [fa]
-    sb = [s for _, s in b] + [fb]
-    return len(sb) <= len(sa) and sa[len(sa) - len(sb):] == sb
+    return a, [s_ for _, s_ in a] + [fa]
+
+
+def root_id(f, op):
+    """Identity of a value with leading borrow-like views (deref, as_ref, as_path ...) removed."""
+    a, sa = seq(f, op)
+    k = 0
+    while k < len(a) and a[k][0].matches(VIEW):
+        k += 1
+    return tuple(sa[k:])
+
+
+def same_root(f, op, ref_op):
+    return root_id(f, op) == root_id(f, ref_op)
+
+
+def view_of(f, op, ref_op):
+    """`op` is computed from `ref_op` through a chain of first-argument calls (lines(from_utf8(x)) is a view of x)."""
+    _, sa = seq(f, op)
+    rb = list(root_id(f, ref_op))
+    return len(rb) <= len(sa) and sa[len(sa) - len(rb):] == rb
 
 
 def through_call(f, op, call):
@@ -324,7 +343,9 @@ def check_region_rules(rep, B):
     # ---- R33.1 (a) no write under check
     def r1():
         sites = B.writes(main)
-        rep.floor("R33.1", "file-writing sites under main (create_dir_all, write)", len(sites), 2)
+        rep.floor("R33.1", "file-writing sites under main (direct or through a CLI-crate helper)", len(sites), 1)
+        rep.floor("R33.1", "file-writing std calls in the CLI crate (create_dir_all, write)",
+                  sum(1 for f in c.fns.values() for cc in f.calls() if write_api(cc)), 2)
         for b, what, _ in sites:
             rep.ob("R33.1", f"main: {what} is reached only through the `check == false` edge",
                    B.check_guarded(main, b), "a path with check = true reaches a file-mutating call", main.loc(b))
@@ -393,13 +414,13 @@ def region_rules(rep, B, f, sw, neg):
     wargs = [a for _, _, c in wsites for a in c.args]
 
     def is_dst(op):
-        return any(derives_from(f, op, a) or derives_from(f, a, op) for a in wargs)
+        return any(same_root(f, op, a) for a in wargs)
 
     def same_contents(op):
-        return any(derives_from(f, op, a) and derives_from(f, a, op) for a in wargs)
+        return any(same_root(f, op, a) for a in wargs)
 
     def view_contents(op):
-        return any(derives_from(f, op, a) for a in wargs)
+        return any(view_of(f, op, a) for a in wargs)
 
     ctxs = []
     if [c for c in f.calls(READS) if c.bb in region]:
@@ -427,21 +448,18 @@ def region_rules(rep, B, f, sw, neg):
 
                 def arg_index(op, g=g):
                     calls, fin = chain(g, op)
-                    return (calls, fin[1]) if fin[0] == "arg" and not fin[2] else (calls, None)
+                    views = all(x.matches(VIEW) for x, _ in calls)
+                    return (views, fin[1]) if fin[0] == "arg" and not fin[2] else (views, None)
 
                 def g_is_dst(op, c=c):
-                    calls, i = arg_index(op)
-                    return i is not None and i - 1 < len(c.args) and is_dst(c.args[i - 1])
-
-                def g_same(op, c=c):
-                    calls, i = arg_index(op)
-                    return i is not None and not calls and i - 1 < len(c.args) and same_contents(c.args[i - 1])
+                    views, i = arg_index(op)
+                    return i is not None and views and i - 1 < len(c.args) and is_dst(c.args[i - 1])
 
                 def g_view(op, c=c):
-                    calls, i = arg_index(op)
+                    views, i = arg_index(op)
                     return i is not None and i - 1 < len(c.args) and same_contents(c.args[i - 1])
 
-                ctxs.append(Ctx(g, set(g.live), [b for b, k in ret_defs(g) if k == "Ok"], g_is_dst, g_same, g_view))
+                ctxs.append(Ctx(g, set(g.live), [b for b, k in ret_defs(g) if k == "Ok"], g_is_dst, g_is_dst, g_view))
     rep.floor("R33.3", f"read + comparison located for the check region of {fn}", len(ctxs), 1)
     for ctx in ctxs:
         compare_rules(rep, ctx)
